@@ -844,4 +844,65 @@ def interpolateGeneral (P : Params F) (g : GeneralDomain F) (evals : List F) : O
   | .ok c => .ok (denseFromCoefficientsVec c)
 
 end Generic
+
+/-! ### additions: remaining trait defaults of `EvaluationDomain` and the `Evaluations` API
+    (`poly/src/evaluations/univariate/mod.rs`) -/
+section Generic2
+variable {F : Type} [Add F] [Sub F] [Mul F] [Neg F] [Zero F] [One F] [Inv F] [Div F]
+  [NatCast F] [DecidableEq F]
+
+/-- `EvaluationDomain::new_coset(num_coeffs, offset) = Self::new(num_coeffs)?.get_coset(offset)`
+    (trait default, not overridden); the argument is the outcome of `Self::new(num_coeffs)` -/
+def newCoset (nw : Outcome (Option (GeneralDomain F))) (offset : F) :
+    Outcome (Option (GeneralDomain F)) :=
+  match nw with
+  | .panic => .panic
+  | .ok none => .ok none
+  | .ok (some g) => .ok (generalGetCoset g offset)
+
+/-- `mul_polynomials_in_evaluation_domain(self_evals, other_evals)`;
+    `.panic` = `assert_eq!(self_evals.len(), other_evals.len())` -/
+def mulPolynomialsInEvaluationDomain (a b : List F) : Outcome (List F) :=
+  if a.length ≠ b.length then .panic else .ok (List.zipWith (· * ·) a b)
+
+/-- derived `PartialEq` of `GeneralEvaluationDomain` (variant, then all nine fields) -/
+def generalDomainEq (a b : GeneralDomain F) : Bool :=
+  match a, b with
+  | .radix2 x, .radix2 y => decide (x = y)
+  | .mixedRadix x, .mixedRadix y => decide (x = y)
+  | _, _ => false
+
+/-- `a.iter_mut().zip(&b).for_each(|(x, y)| *x = f(*x, y))`: stops at the shorter list, the rest
+    of `a` is untouched -/
+def zipAssign (f : F → F → F) : List F → List F → List F
+  | [], _ => []
+  | a :: as, [] => a :: as
+  | a :: as, b :: bs => f a b :: zipAssign f as bs
+
+/-- `Evaluations::zero(domain)` -/
+def evalsZero (d : Domain F) : List F := List.replicate d.size 0
+
+/-- `Index<usize> for Evaluations`: `&self.evals[index]` with the slice-index panic -/
+def evalsIndex (evals : List F) (i : Nat) : Outcome F :=
+  match evals[i]? with
+  | some x => .ok x
+  | none => .panic
+
+/-- `Mul<F> for &Evaluations` (the domain is kept) -/
+def evalsMulScalar (evals : List F) (c : F) : List F := evals.map (fun e => e * c)
+
+/-- `AddAssign / SubAssign / MulAssign<&Self> for Evaluations` (and the `&a ⊕ &b` forms, which
+    clone and assign): `assert_eq!(self.domain, other.domain)`, then the zipped update -/
+def evalsBinAssign (f : F → F → F) (sameDomain : Bool) (a b : List F) : Outcome (List F) :=
+  if !sameDomain then .panic else .ok (zipAssign f a b)
+
+/-- `DivAssign<&Self> for Evaluations`: the same assertion, `batch_inversion` of a copy of the
+    other evaluations (zero entries stay zero), zipped multiplication -/
+def evalsDivAssign (sameDomain : Bool) (a b : List F) : Outcome (List F) :=
+  if !sameDomain then .panic
+  else match batchInversion b with
+    | none => .panic
+    | some bi => .ok (zipAssign (· * ·) a bi)
+
+end Generic2
 end Ark.Fft
